@@ -13,6 +13,7 @@ CONSTANTS
   TrimMayFail = FALSE
   MaxLen = 1000
   CloseAfter = 0
+  CrashEvery = 0
 VIEW GView
 INVARIANTS Witness
 CHECK_DEADLOCK FALSE
